@@ -80,7 +80,9 @@ struct ISig
   virtual unsigned kind() const = 0;
 };
 
-result_t combine(result_t a, result_t b) { return a * 1000003U + b + 7U; }
+// every signal gets its own (non-commutative) combiner, so that a signal that takes over another one
+// must also take over its combiner
+result_t combine(unsigned k, result_t a, result_t b) { return a * (1000003U + 2U * k) + b + 7U + k; }
 result_t cb_value(long cid, unsigned arg) { return static_cast<result_t>(cid) * 31U + arg * 3U + 1U; }
 
 struct World
@@ -108,6 +110,7 @@ struct World
   };
   std::unique_ptr<ISig> sigs[SIGS];
   bool sig_moved_from[SIGS] = {false, false, false};
+  unsigned sig_comb[SIGS] = {0, 0, 0}; // model: which combiner the signal in this slot folds with
   std::vector<long> msig[SIGS]; // model: connection ids in order
   std::optional<Conn> conns[CONNS];
   std::vector<long> invoked; // callback invocation log of the current call
@@ -368,16 +371,17 @@ std::unique_ptr<ISig> make_sig_impl(unsigned kind, Args &&...args)
   return std::make_unique<SigImpl<Signal, Unreg, Value>>(std::move(ns), kind);
 }
 
-std::unique_ptr<ISig> make_sig(unsigned kind)
+std::unique_ptr<ISig> make_sig(unsigned kind, unsigned k)
 {
+  auto const comb = [k](result_t a, result_t b) { return combine(k, a, b); };
   switch (kind % 4)
   {
   case 0:
-    return make_sig_impl<SigV, false, true>(0, SigV::combiner_function{&combine});
+    return make_sig_impl<SigV, false, true>(0, SigV::combiner_function{comb});
   case 1:
     return make_sig_impl<SigN, false, false>(1);
   case 2:
-    return make_sig_impl<SigVU, true, true>(2, SigVU::combiner_function{&combine});
+    return make_sig_impl<SigVU, true, true>(2, SigVU::combiner_function{comb});
   default:
     return make_sig_impl<SigNU, true, false>(3);
   }
@@ -668,11 +672,13 @@ void World::run_op(sim::Op const &op)
       if (!sigs[s])
       {
         unsigned const kind = static_cast<unsigned>(op.getu("kind") % 4);
-        bool const ok = guarded(n, [&] { sigs[s] = make_sig(kind); });
+        unsigned const comb_id = static_cast<unsigned>(counter++ % 97);
+        bool const ok = guarded(n, [&] { sigs[s] = make_sig(kind, comb_id); });
         if (ok)
         {
           msig[s].clear();
           sig_moved_from[s] = false;
+          sig_comb[s] = comb_id;
         }
         else
           SIM_CHECK(!sigs[s], "ctor-threw-but-object-exists", n);
@@ -710,6 +716,7 @@ void World::run_op(sim::Op const &op)
         {
           msig[t] = msig[s];
           msig[s].clear();
+          sig_comb[t] = sig_comb[s];
           sig_moved_from[t] = false;
           sig_moved_from[s] = true;
           for (auto &c : conns)
@@ -742,6 +749,7 @@ void World::run_op(sim::Op const &op)
     }
     msig[dst] = msig[src];
     msig[src].clear();
+    sig_comb[dst] = sig_comb[src];
     sig_moved_from[dst] = false;
     sig_moved_from[src] = true;
     ctx.ev("sig_move_assign " + std::to_string(src) + " -> " + std::to_string(dst));
@@ -809,7 +817,7 @@ void World::run_op(sim::Op const &op)
       {
         result_t want = initial;
         for (long cid : m)
-          want = combine(want, cb_value(cid, arg));
+          want = combine(sig_comb[s], want, cb_value(cid, arg));
         SIM_CHECK(res.has_value() && *res == want, "fold-result", "signal returned " + std::to_string(res.value_or(0)) + ", left fold from the initial value gives " + std::to_string(want));
       }
     }
